@@ -76,7 +76,7 @@ package state
 //@   ghost outEpoch int
 //@   ghost inEpoch int
 //@   invariant handlers: self.prioSeqHandler != nil && self.reglSeqHandler != nil && self.prioSeqHandler != self.reglSeqHandler
-//@   invariant cipher-key [C15]: (self.inCipher != nil ==> aeadkey(self.inCipher) == base(self.inKey)) && (self.outCipher != nil ==> aeadkey(self.outCipher) == base(self.outKey))
+//@   invariant cipher-key [C15]: (self.inCipher != nil ==> aeadkey(self.inCipher) == base(self.inKey)) && (self.outCipher != nil ==> aeadkey(self.outCipher) == base(self.outKey)) && (self.nextInCipher != nil ==> aeadkey(self.nextInCipher) == base(self.nextInKey))
 
 // The cipher returned is keyed with the new key (not the old one), and the new key is a new buffer.
 //@ func rolloverKey
@@ -88,10 +88,11 @@ package state
 //@   update when result == nil: s.outEpoch = old(s.outEpoch) + 1
 //@   ensures cipher: result == nil ==> s.outCipher != nil
 
-//@ func EncryptionSession.rolloverInKey
-//@   modifies s.inKey, s.inCipher
-//@   update when result == nil: s.inEpoch = old(s.inEpoch) + 1
-//@   ensures cipher: result == nil ==> s.inCipher != nil
+// The next incoming key is derived from the current one at most once per epoch; preparing it moves nothing.
+//@ func EncryptionSession.prepareNextInKey
+//@   modifies s.nextInKey, s.nextInCipher
+//@   ensures prepared [C15]: result == nil ==> s.nextInCipher != nil && aeadkey(s.nextInCipher) == base(s.nextInKey)
+//@   ensures prepared-once [C15]: old(s.nextInCipher) != nil ==> result == nil && s.nextInCipher == old(s.nextInCipher) && base(s.nextInKey) == base(old(s.nextInKey))
 
 //@ func EncryptionSession.Out
 // (the frame below is the statement "sealing never touches a receive window": replay protection, C03)
@@ -105,31 +106,37 @@ package state
 //@   ensures rollover-restarts-priority [C15]: err == nil && s.outEpoch != old(s.outEpoch) ==> s.prioSeqHandler.outSeq.v == 0 && seqNum == 1
 //@   ensures no-epoch-skip [C15]: s.outEpoch == old(s.outEpoch) || s.outEpoch == old(s.outEpoch) + 1
 
+// Choosing the cipher for an incoming frame happens before the frame is authenticated: it moves no key, no epoch and
+// no receive window (C02, C05: a tampered, forged or replayed frame cannot desynchronise the session; C15: receiving
+// never touches an outgoing counter). A regular frame that indicates a rollover is opened with the prepared next key.
 //@ func EncryptionSession.In
-// (the frame below is the statement "receiving never touches an outgoing counter": nonce uniqueness, C15)
-//@   modifies s.lock, s.inKey, s.inCipher, s.reglSeqHandler.highest, s.prioSeqHandler.highest, s.prioSeqHandler.bitMap, s.prioSeqHandler.lock, s.reglSeqHandler.lock, s.reglSeqHandler.seen, s.prioSeqHandler.seen, s.inEpoch
-//@   callsite SequenceHandler.RolloverRequired regular-class-decides-the-rollover [C15]: arg0 == s.reglSeqHandler && !prio
-//@   callsite SequenceHandler.rolloverIndicated own-class-tested [C15]: arg0 == s.prioSeqHandler && prio
-//@   ensures priority-frames-never-restart-a-window [C03]: prio ==> s.reglSeqHandler.highest == old(s.reglSeqHandler.highest) && s.prioSeqHandler.highest == old(s.prioSeqHandler.highest) && s.prioSeqHandler.bitMap == old(s.prioSeqHandler.bitMap)
-//@   ensures cipher [C15]: err == nil ==> c != nil && c == s.inCipher && aeadkey(c) == base(s.inKey)
-//@   ensures rollover-cond [C15]: err == nil && !prio ==> (s.inEpoch == old(s.inEpoch) + 1) == rollCond(old(s.reglSeqHandler.highest), seqNum)
-//@   ensures rollover-restarts [C15]: err == nil && s.inEpoch != old(s.inEpoch) ==> s.reglSeqHandler.highest == 0 && s.prioSeqHandler.highest == 0
-//@   ensures prio-never-rolls [C15]: prio ==> s.inEpoch == old(s.inEpoch)
-//@   ensures no-epoch-skip [C15]: s.inEpoch == old(s.inEpoch) || s.inEpoch == old(s.inEpoch) + 1
-//@   ensures windows-kept [C03]: s.inEpoch == old(s.inEpoch) && err == nil ==> s.reglSeqHandler.highest == old(s.reglSeqHandler.highest) && s.prioSeqHandler.highest == old(s.prioSeqHandler.highest) && (forall q uint32 :: s.reglSeqHandler.seen[q] == old(s.reglSeqHandler.seen[q]) && s.prioSeqHandler.seen[q] == old(s.prioSeqHandler.seen[q]))
+//@   modifies s.lock, s.nextInKey, s.nextInCipher, s.prioSeqHandler.lock, s.reglSeqHandler.lock
+//@   callsite SequenceHandler.rolloverIndicated own-class-tested [C15]: (prio ==> arg0 == s.prioSeqHandler) && (!prio ==> arg0 == s.reglSeqHandler)
+//@   ensures cipher [C15]: err == nil && !(!prio && rollCond(s.reglSeqHandler.highest, seqNum)) ==> c != nil && c == s.inCipher && aeadkey(c) == base(s.inKey)
+//@   ensures cipher-of-the-next-epoch [C15]: err == nil && !prio && rollCond(s.reglSeqHandler.highest, seqNum) ==> c != nil && c == s.nextInCipher && aeadkey(c) == base(s.nextInKey)
+//@   ensures priority-frames-never-indicate-a-rollover [C03,C15]: prio && rollCond(s.prioSeqHandler.highest, seqNum) ==> err != nil
 
+// The sequence check runs only for authenticated frames (call-site clauses of FrameV1.Unseal and LinkFrame.Unseal);
+// it executes the rollover that an authenticated regular frame indicates: the prepared key becomes the incoming key
+// and both receive windows restart. Nothing else moves the incoming key.
 //@ func EncryptionSession.Check
-//@   modifies s.reglSeqHandler.bitMap, s.reglSeqHandler.highest, s.reglSeqHandler.lock, s.prioSeqHandler.bitMap, s.prioSeqHandler.highest, s.prioSeqHandler.lock, s.reglSeqHandler.seen, s.prioSeqHandler.seen
-//@   ensures once-regular [C03]: result == nil && !prio ==> !old(s.reglSeqHandler.seen[seqNum]) && s.reglSeqHandler.seen[seqNum]
+//@   modifies s.lock, s.inKey, s.inCipher, s.nextInKey, s.nextInCipher, s.inEpoch, s.reglSeqHandler.bitMap, s.reglSeqHandler.highest, s.reglSeqHandler.lock, s.prioSeqHandler.bitMap, s.prioSeqHandler.highest, s.prioSeqHandler.lock, s.reglSeqHandler.seen, s.prioSeqHandler.seen
+//@   update when !prio && old(s.nextInCipher) != nil && rollCond(old(s.reglSeqHandler.highest), seqNum): s.inEpoch = old(s.inEpoch) + 1
+//@   callsite SequenceHandler.RolloverRequired regular-class-decides-the-rollover [C15]: arg0 == s.reglSeqHandler && !prio
+//@   ensures rollover-cond [C15]: (s.inEpoch == old(s.inEpoch) + 1) == (!prio && old(s.nextInCipher) != nil && rollCond(old(s.reglSeqHandler.highest), seqNum))
+//@   ensures no-epoch-skip [C15]: s.inEpoch == old(s.inEpoch) || s.inEpoch == old(s.inEpoch) + 1
+//@   ensures rollover-installs-the-prepared-key [C15]: s.inEpoch != old(s.inEpoch) ==> s.inCipher == old(s.nextInCipher) && base(s.inKey) == base(old(s.nextInKey)) && s.nextInCipher == nil && s.prioSeqHandler.highest == 0 && s.prioSeqHandler.bitMap == 0
+//@   ensures key-kept-without-rollover [C15]: s.inEpoch == old(s.inEpoch) ==> s.inCipher == old(s.inCipher) && base(s.inKey) == base(old(s.inKey)) && s.nextInCipher == old(s.nextInCipher)
+//@   ensures once-regular [C03]: result == nil && !prio && s.inEpoch == old(s.inEpoch) ==> !old(s.reglSeqHandler.seen[seqNum]) && s.reglSeqHandler.seen[seqNum]
 //@   ensures once-priority [C03]: result == nil && prio ==> !old(s.prioSeqHandler.seen[seqNum]) && s.prioSeqHandler.seen[seqNum]
 //@   ensures window-regular [C03]: (!prio && !old(s.reglSeqHandler.seen[seqNum]) && seqNum != 0 && (seqNum > old(s.reglSeqHandler.highest) || old(s.reglSeqHandler.highest) - seqNum <= 64)) ==> result == nil
 //@   ensures window-priority [C03]: (prio && !old(s.prioSeqHandler.seen[seqNum]) && seqNum != 0 && (seqNum > old(s.prioSeqHandler.highest) || old(s.prioSeqHandler.highest) - seqNum <= 64)) ==> result == nil
-//@   ensures other-class-untouched [C03]: (prio ==> s.reglSeqHandler.highest == old(s.reglSeqHandler.highest) && s.reglSeqHandler.bitMap == old(s.reglSeqHandler.bitMap)) && (!prio ==> s.prioSeqHandler.highest == old(s.prioSeqHandler.highest) && s.prioSeqHandler.bitMap == old(s.prioSeqHandler.bitMap))
+//@   ensures other-class-untouched [C03]: (prio ==> s.reglSeqHandler.highest == old(s.reglSeqHandler.highest) && s.reglSeqHandler.bitMap == old(s.reglSeqHandler.bitMap)) && (!prio && s.inEpoch == old(s.inEpoch) ==> s.prioSeqHandler.highest == old(s.prioSeqHandler.highest) && s.prioSeqHandler.bitMap == old(s.prioSeqHandler.bitMap))
 
 // In-order delivery keeps sender and receiver on the same key across the 32-bit wrap:
 // sender state o (last number issued), receiver state h (highest accepted), h == o.
 // The sender's next number is o+1, or 1 with a key rollover exactly when o == 0xFFFFFFFF (NextOut/Out);
-// the receiver rolls exactly under rollCond (RolloverRequired/In). Both therefore roll on the same frame.
+// the receiver rolls exactly under rollCond (RolloverRequired/Check) once that frame is authenticated. Both therefore roll on the same frame.
 //@ lemma inorder-rollover-agreement: forall o uint32 :: (o == 0xFFFFFFFF) == rollCond(o, (o == 0xFFFFFFFF ? 1 : o + 1))
 // A frame can trigger a rollover only when the receiver is within 256 of the wrap and the number is at most 255.
 //@ lemma rollover-only-near-wrap: forall h uint32, q uint32 :: rollCond(h, q) ==> h >= 0xFFFFFF00 && q <= 255
